@@ -162,6 +162,87 @@ def usage_crate(dirpath, feats, std, derives):
     return n
 
 
+# Self-contained inputs for a crate that is itself `#![no_std]` (no `extern crate alloc`, no `extern crate std`): what a user of the
+# `default-features = false` configuration writes.  Prerequisite impls are written by hand so that each module needs one feature only.
+_OPS = {"Add": "add", "Sub": "sub", "BitAnd": "bitand", "BitOr": "bitor", "BitXor": "bitxor"}
+_MULS = {"Mul": "mul", "Div": "div", "Rem": "rem", "Shr": "shr", "Shl": "shl"}
+_FMTS = {"Display": "display", "Binary": "binary", "Octal": "octal", "LowerHex": "lower_hex", "UpperHex": "upper_hex", "LowerExp": "lower_exp", "UpperExp": "upper_exp", "Pointer": "pointer"}
+
+
+def nostd_inputs(name):
+    d = "#[derive(derive_more::%s)] " % name
+    disp = "impl ::core::fmt::Display for S { fn fmt(&self, f: &mut ::core::fmt::Formatter<'_>) -> ::core::fmt::Result { f.write_str(\"s\") } }"
+    if name in _OPS or name in ("Not", "Neg"):
+        return [d + "pub struct S(i8, i8);", d + "pub enum S { A(i8), B { x: i8 }, C }"]
+    if name[:-6] in _OPS and name.endswith("Assign"):
+        return [d + "pub struct S(i8, i8);"]
+    if name in _MULS:
+        return [d + "pub struct S(u8, u8);", d + "#[%s(forward)] pub struct S(u8);" % _MULS[name]]
+    if name[:-6] in _MULS and name.endswith("Assign"):
+        return [d + "pub struct S(u8, u8);"]
+    if name == "Sum":
+        return [d + "pub struct S(u8); impl ::core::ops::Add for S { type Output = S; fn add(self, o: S) -> S { S(self.0 + o.0) } }"]
+    if name == "Product":
+        return [d + "pub struct S(u8); impl ::core::ops::Mul for S { type Output = S; fn mul(self, o: S) -> S { S(self.0 * o.0) } }"]
+    if name in ("AsRef", "AsMut"):
+        return [d + "pub struct S(u8);", d + "#[%s(forward)] pub struct S([u8; 2]);" % ("as_ref" if name == "AsRef" else "as_mut")]
+    if name == "Constructor":
+        return [d + "pub struct S { a: u8, b: i8 }"]
+    if name == "Debug":
+        return [d + "pub struct S { a: u8, #[debug(skip)] b: i8 }", d + "pub enum S { A(u8, u8), B { x: u8 }, C }"]
+    if name in _FMTS:
+        a = _FMTS[name]
+        first = (d + "pub struct S(u8);") if name not in ("LowerExp", "UpperExp", "Pointer") else (d + ("pub struct S(f32);" if name != "Pointer" else "pub struct S(&'static u8);"))
+        return [first, d + "#[%s(\"a{}b\", 1u8)] pub struct S;" % a, d + "pub enum S { #[%s(\"a\")] A, #[%s(\"{_0:?}\")] B(u8) }" % (a, a)] + ([d + "pub enum S { Aa, Bb }"] if name == "Display" else [])
+    if name == "Deref":
+        return [d + "pub struct S(u8);", d + "#[deref(forward)] pub struct S(&'static u8);"]
+    if name == "DerefMut":
+        return [d + "pub struct S(u8); impl ::core::ops::Deref for S { type Target = u8; fn deref(&self) -> &u8 { &self.0 } }"]
+    if name == "Error":
+        return [d + "#[derive(Debug)] pub struct S; " + disp, d + "#[derive(Debug)] pub struct S { source: ::core::fmt::Error } " + disp]
+    if name == "From":
+        return [d + "pub struct S(u8, i8);", d + "pub enum S { A(u8), B { x: i8 }, C }", d + "#[from(forward)] pub struct S(u16);"]
+    if name == "FromStr":
+        return [d + "pub struct S(u8);", d + "pub enum S { Foo, Bar, FOO }"]
+    if name == "Index":
+        return [d + "pub struct S([u8; 2]);"]
+    if name == "IndexMut":
+        return [d + "pub struct S([u8; 2]); impl<I> ::core::ops::Index<I> for S where [u8; 2]: ::core::ops::Index<I> { type Output = <[u8; 2] as ::core::ops::Index<I>>::Output; fn index(&self, i: I) -> &Self::Output { &self.0[i] } }"]
+    if name == "Into":
+        return [d + "pub struct S(u8, i8);", d + "#[into(owned, ref, ref_mut)] pub struct S { a: u8 }"]
+    if name == "IntoIterator":
+        return [d + "#[into_iterator(owned, ref, ref_mut)] pub struct S([u8; 2]);"]
+    if name == "IsVariant":
+        return [d + "pub enum S { A(u8), B { x: i8 }, C }"]
+    if name in ("Unwrap", "TryUnwrap"):
+        return [d + "#[%s(ref, ref_mut)] pub enum S { A(u8), B(i8, u8), C }" % ("unwrap" if name == "Unwrap" else "try_unwrap")]
+    if name == "TryFrom":
+        return [d + "#[try_from(repr)] #[repr(u8)] pub enum S { A = 1, B, C(u8) }"]
+    if name == "TryInto":
+        return [d + "#[try_into(owned, ref, ref_mut)] pub enum S { A(u8), B(i8, u8), C }"]
+    raise MachineryError("no #![no_std] input for derive %s" % name)
+
+
+def nostd_crate(dirpath, feats, derives):
+    shutil.rmtree(dirpath, ignore_errors=True)
+    os.makedirs(os.path.join(dirpath, "src"))
+    with open(os.path.join(dirpath, "Cargo.toml"), "w") as f:
+        f.write('[package]\nname = "c20nostd"\nversion = "0.0.0"\nedition = "2021"\n[workspace]\n[dependencies]\nderive_more = { path = "%s", default-features = false, features = [%s] }\n' % (
+            REPO, ", ".join('"%s"' % x for x in feats)))
+    shutil.copy(os.path.join(REPO, "Cargo.lock"), os.path.join(dirpath, "Cargo.lock"))
+    parts = ["#![no_std]\n#![allow(unused, dead_code)]\n"]
+    n = 0
+    for d in derives:
+        if d["feature"] not in feats:
+            continue
+        for k, item in enumerate(nostd_inputs(d["name"])):
+            parts.append("pub mod n_%s_%d { %s }\n" % (d["name"].lower(), k, item))
+            n += 1
+    with open(os.path.join(dirpath, "src", "lib.rs"), "w") as f:
+        f.write("".join(parts))
+    return n
+
+
 def trait_probe(worker, feats, std, derives, tdir):
     """Which `derive_more::with_trait::<Name>` are usable in trait position in this configuration (set of names)."""
     d = os.path.join(WORK, "c20t-%d" % worker)
@@ -260,6 +341,24 @@ def check_config(worker, feats, std, derives, do_tests, tests, clean=False, trai
     elif p.returncode != 0:
         problems.append(("usage crate does not build", last_error(p.stderr)))
     shutil.rmtree(udir, ignore_errors=True)
+    # 3b'. without `std`: the same in a crate that is itself `#![no_std]` and links neither std nor alloc explicitly
+    if not std:
+        ndir = os.path.join(WORK, "c20n-%d" % worker)
+        nostd_crate(ndir, feats, derives)
+        p = cargo(["check", "--offline", "--message-format=json", "-q"], ndir, tdir)
+        steps += 1
+        nerrs = []
+        for line in p.stdout.splitlines():
+            if not line.startswith("{"):
+                continue
+            m = json.loads(line)
+            if m.get("reason") == "compiler-message" and m["message"]["level"] == "error" and not m["message"]["message"].startswith("aborting"):
+                nerrs.append(m["message"]["message"])
+        if nerrs:
+            problems.append(("a derive of an enabled feature does not compile in a #![no_std] crate: " + re.sub(r"`[^`]*`", "`..`", sorted(set(nerrs))[0])[:70], " | ".join(sorted(set(nerrs))[:3])[:400]))
+        elif p.returncode != 0:
+            problems.append(("#![no_std] usage crate does not build", last_error(p.stderr)))
+        shutil.rmtree(ndir, ignore_errors=True)
     # 3c. names usable as traits through `derive_more::with_trait` are the same as under `full`
     if trait_ref is not None:
         got = trait_probe(worker, feats, std, derives, tdir)
@@ -284,7 +383,7 @@ def check_config(worker, feats, std, derives, do_tests, tests, clean=False, trai
             d = os.path.join(tdir, sub)
             if os.path.isdir(d):
                 for name in os.listdir(d):
-                    if name.startswith(("derive_more", "libderive_more", "c20probe", "libc20probe", "c20use", "libc20use")) or re.match(r"^(lib)?(add|as_|constructor|debug|deref|display|error|from|index|into|is_variant|mul|not|sum|try_|unwrap|generics|lib|no_std|boats)", name):
+                    if name.startswith(("derive_more", "libderive_more", "c20probe", "libc20probe", "c20use", "libc20use", "c20nostd", "libc20nostd")) or re.match(r"^(lib)?(add|as_|constructor|debug|deref|display|error|from|index|into|is_variant|mul|not|sum|try_|unwrap|generics|lib|no_std|boats)", name):
                         path = os.path.join(d, name)
                         (shutil.rmtree if os.path.isdir(path) else os.remove)(path)
     return problems, steps
